@@ -37,6 +37,33 @@ type vfsHandle struct {
 	path   string
 	node   *vfsNode
 	closed bool
+	// overwrite: opened for writing without O_TRUNC / O_APPEND on a file that had content: what is
+	// written replaces the old content from offset 0, the rest of the old content stays behind
+	overwrite bool
+	oldData   []byte
+	oldRecs   int
+	newData   []byte
+	newRecs   []interface{}
+}
+
+// vfsAppend is a write through handle h.
+func vfsAppend(h *vfsHandle, data []byte, recs []interface{}) {
+	if !h.overwrite {
+		h.node.data = append(h.node.data, data...)
+		h.node.recs = append(h.node.recs, recs...)
+		return
+	}
+	h.newData = append(h.newData, data...)
+	h.newRecs = append(h.newRecs, recs...)
+	nd := append([]byte(nil), h.newData...)
+	if len(nd) < len(h.oldData) {
+		nd = append(nd, h.oldData[len(nd):]...)
+	}
+	h.node.data = nd
+	h.node.recs = append([]interface{}(nil), h.newRecs...)
+	// fewer values than before (value counts stand for byte lengths): the tail of the old stream
+	// follows the new one - not a decodable continuation
+	h.node.partial = len(h.newRecs) < h.oldRecs
 }
 
 var vfsNodes = map[string]*vfsNode{}
@@ -177,6 +204,46 @@ func ModelOsCreate(name string) (*os.File, error) {
 	return f, nil
 }
 
+// ModelOsOpenFile models os.OpenFile for the flags O_RDONLY/O_WRONLY/O_RDWR, O_CREATE, O_EXCL,
+// O_TRUNC, O_APPEND.
+func ModelOsOpenFile(name string, flag int, perm os.FileMode) (*os.File, error) {
+	name = filepath.Clean(name)
+	n := vfsNodes[name]
+	writing := flag&(os.O_WRONLY|os.O_RDWR) != 0
+	if n == nil {
+		if flag&os.O_CREATE == 0 {
+			return nil, errVfsNotExist
+		}
+		if p := vfsNodes[filepath.Dir(name)]; p == nil || !p.dir {
+			return nil, errVfsNotExist
+		}
+		vfsMutation()
+		n = &vfsNode{}
+		vfsNodes[name] = n
+	} else if flag&os.O_CREATE != 0 && flag&os.O_EXCL != 0 {
+		return nil, errVfsExist
+	}
+	if n.dir && writing {
+		return nil, errVfsExist
+	}
+	h := &vfsHandle{path: name, node: n}
+	if writing && !n.dir {
+		if flag&os.O_TRUNC != 0 {
+			vfsMutation()
+			n = &vfsNode{}
+			vfsNodes[name] = n
+			h.node = n
+		} else if flag&os.O_APPEND == 0 && (len(n.data) > 0 || len(n.recs) > 0) {
+			h.overwrite = true
+			h.oldData = n.data
+			h.oldRecs = len(n.recs)
+		}
+	}
+	f := &os.File{}
+	vfsFiles[f] = h
+	return f, nil
+}
+
 // ModelOsOpen models os.Open.
 func ModelOsOpen(name string) (*os.File, error) {
 	name = filepath.Clean(name)
@@ -296,7 +363,7 @@ func ModelFileWrite(f *os.File, b []byte) (int, error) {
 		return 0, errVfsClosed
 	}
 	vfsMutation()
-	h.node.data = append(h.node.data, b...)
+	vfsAppend(h, b, nil)
 	return len(b), nil
 }
 
@@ -356,8 +423,7 @@ func ModelBufioFlush(bw *bufio.Writer) error {
 	if len(w.data) > 0 || len(w.recs) > 0 {
 		vfsMutation()
 	}
-	h.node.data = append(h.node.data, w.data...)
-	h.node.recs = append(h.node.recs, w.recs...)
+	vfsAppend(h, w.data, w.recs)
 	w.data, w.recs = nil, nil
 	return nil
 }
@@ -405,7 +471,7 @@ func ModelGobEncode(e *gob.Encoder, v interface{}) error {
 			return errVfsClosed
 		}
 		vfsMutation()
-		h.node.recs = append(h.node.recs, rec)
+		vfsAppend(h, nil, []interface{}{rec})
 	default:
 		Unreachable("gob encoder over a writer the model cannot see")
 	}
